@@ -635,5 +635,39 @@ def r11_14(ctx):
     return r
 
 
+def r11_15(ctx):
+    """'If the network eventually delivers retransmitted flights, both endpoints reach Connected': rustrtc retransmits a
+    flight byte for byte (known finding R11.13: the record sequence numbers of the first transmission are reused), and the
+    convergence repairs depend on the peer SEEING those copies - the server re-sends its final flight when the client's
+    Finished arrives again. A record that authenticated must therefore reach the record handler; an anti-replay window
+    (correct on its own, RFC 6347 4.1.2.6) between the AEAD open and the handler drops exactly the copies the repairs
+    wait for. Decided: in handle_incoming_packet every path from the Ok edge of try_decrypt_record reaches
+    handle_decrypted_record before the loop goes on to the next record."""
+    r = RuleResult("R11.15", "K4", "a record that authenticated is always handed to the record handler")
+    b = ctx.body("transports::dtls::DtlsInner::handle_incoming_packet::{closure#0}")
+    r.scope.append(b.name)
+    oks = []
+    for sb in range(len(b.blocks)):
+        if sb in b.cleanup or b.blocks[sb]["t"]["k"] != "switch":
+            continue
+        term, outs = b.switch_info(sb)
+        if term[0] == "discr" and term[1][0] == "call" and term[1][1].endswith("::try_decrypt_record"):
+            oks += [tgt for tgt, _, m in outs if m == "Ok"]
+    handlers = {bi for bi, t, p in b.calls() if p and p.endswith("::handle_decrypted_record")}
+    r.need("Ok edges of try_decrypt_record", len(oks), 1)
+    r.need("handle_decrypted_record calls", len(handlers), 1)
+    back = b.back_edges()
+    for tgt in oks:
+        reach = b.reachable([tgt], cut_blocks=handlers) | {tgt}
+        skipped = [(x, y) for x, y in back if x in reach] + [(x, None) for x in reach if b.blocks[x]["t"]["k"] == "ret"]
+        if tgt in handlers or not skipped:
+            r.ok({"from": b.where(tgt), "reaches": "handle_decrypted_record on every path"})
+        else:
+            r.violate(b.name, "record:dropped-after-authentication", b.where(skipped[0][0]),
+                      "a record that passed try_decrypt_record can be skipped without reaching handle_decrypted_record: byte-identical "
+                      "retransmissions (R11.13) are then invisible to the handlers that answer them - a lost final flight is never repaired")
+    return r
+
+
 def run(ctx):
-    return [r11_1(ctx), r11_2(ctx), r11_3(ctx), r11_4(ctx), r11_5(ctx), r11_6(ctx), r11_7(ctx), r11_8(ctx), r11_9(ctx), r11_10(ctx), r11_11(ctx), r11_12(ctx), r11_13(ctx), r11_14(ctx)]
+    return [r11_1(ctx), r11_2(ctx), r11_3(ctx), r11_4(ctx), r11_5(ctx), r11_6(ctx), r11_7(ctx), r11_8(ctx), r11_9(ctx), r11_10(ctx), r11_11(ctx), r11_12(ctx), r11_13(ctx), r11_14(ctx), r11_15(ctx)]
